@@ -442,6 +442,16 @@ fn step(rest: &str) -> String {
             Ok(_) => "refused".into(),
             Err(_) => "bad-op".into(),
         },
+        ("ccf", 2) => match (args[0].parse::<u8>(), args[1].parse::<u8>()) {
+            (Ok(a), Ok(b)) if a < 16 && b < 16 => {
+                use mpeg2ts_reader::packet::ContinuityCounter;
+                // `a.follows(b)`; `From<u8>` is the other public constructor: must agree with `new`
+                let x = ContinuityCounter::new(a);
+                let y = ContinuityCounter::from(b);
+                format!("{}{}", fb(x.follows(y)), if y.count() == b && x.count() == a { "" } else { "!count" })
+            }
+            _ => "bad-op".into(),
+        },
         ("tsh", 1) => {
             let b = unhex(args[0]);
             let t = psi::TableSyntaxHeader::new(&b);
